@@ -378,19 +378,21 @@ func (c CollectionPage) Equals(with Item) bool {
 				return nil
 			}
 		}
-		if w.Current != nil {
+		// NOTE(marius): the collection comparison above has looked at the ones both have: looking again would double
+		// the work at every level of a chain of pages
+		if w.Current != nil && c.Current == nil {
 			if !ItemsEqual(c.Current, w.Current) {
 				result = false
 				return nil
 			}
 		}
-		if w.First != nil {
+		if w.First != nil && c.First == nil {
 			if !ItemsEqual(c.First, w.First) {
 				result = false
 				return nil
 			}
 		}
-		if w.Last != nil {
+		if w.Last != nil && c.Last == nil {
 			if !ItemsEqual(c.Last, w.Last) {
 				result = false
 				return nil
